@@ -160,6 +160,9 @@ func (tt *termTable) and(a, b *Term) *Term {
 	if a == b {
 		return a
 	}
+	if (a.op == "not" && a.args[0] == b) || (b.op == "not" && b.args[0] == a) {
+		return tt.boolConst(false)
+	}
 	return tt.intern("and", boolSort, 0, "", a, b)
 }
 
@@ -178,6 +181,9 @@ func (tt *termTable) or(a, b *Term) *Term {
 	}
 	if a == b {
 		return a
+	}
+	if (a.op == "not" && a.args[0] == b) || (b.op == "not" && b.args[0] == a) {
+		return tt.boolConst(true)
 	}
 	return tt.intern("or", boolSort, 0, "", a, b)
 }
